@@ -236,3 +236,39 @@ def _precondition_atoms(ctx, f, g):
             out.update(g.describe_all(b, val, vals))
     c[f.path] = out
     return out
+
+
+def minifill(pid):
+    """R-MINIFILL: mini sectors are handed out as they are (allocate_mini_sector writes nothing into them; regular
+    sectors are initialised with SectorInit::Zero).  So when a stream in the mini stream grows, the zero fill runs
+    from the old end to the NEW LENGTH: wherever the stream layer copies zeros (`io::repeat(0).take(n)`) into a mini
+    chain, n is a plain difference of two lengths - not one capped at a mini-sector boundary (`min`, `div_ceil`,
+    `% MINI_SECTOR_LEN`), which is the regular chain's rule and leaves whatever a removed stream wrote in the
+    recycled mini sectors visible."""
+    def run(ctx):
+        res = RuleResult("R-MINIFILL(%s)" % pid, "zeros copied into a mini chain by the stream layer run to the new length: the byte count of the zero source is a plain difference of lengths, never capped at a sector boundary")
+        n = 0
+        for f in ctx.fx.fns.values():
+            if not f.path.startswith("internal::stream::"):
+                continue
+            v = view(ctx, f)
+            pr = None
+            for bb, c in sorted(v.calls.items()):
+                if not re.search(r"io::copy$|Write::write_all$|Write::write$", c.name) or len(c.term["args"]) < 2:
+                    continue
+                pr = pr or Prov(f)
+                args = [pr.operand(a) for a in c.term["args"]]
+                src = [a for a in args if re.search(r"repeat\(const:0", a)]
+                dst = [a for a in args if "open_mini_chain(" in a]
+                if not src or not dst:
+                    continue
+                n += 1
+                m = re.search(r"Read::take\(io::repeat\(const:0\),(.*)\)$", src[0])
+                amount = m.group(1) if m else src[0]
+                if re.search(r"MINI_SECTOR_LEN|sector_len|Ord::min\(|div_ceil|Rem\(|next_multiple_of|const:64\b|const:63\b", amount):
+                    res.fail(Finding(res.rule, "R-MINIFILL/%s/zero-fill-capped-at-a-sector-boundary" % f.path, "the zeros copied into the mini chain stop at %s: mini sectors are not blank when they are allocated, so everything from the old end to the new length must be zeroed - the bytes of a removed stream stay visible in the recycled mini sectors beyond that boundary" % amount[:100], f, c.term["span"]))
+                else:
+                    res.ok({"function": f.path, "line": c.line, "zeros": amount[:80]}, nontrivial=True)
+        res.floor("zero copies into mini chains", n, ctx.table("floors").get("minifill_sites", 0))
+        return res
+    return run
